@@ -18,6 +18,7 @@ type c10Case struct {
 	Recs   []FaRec `json:"recs"`
 	RefLay Layout  `json:"ref_layout"`
 	AlnLay Layout  `json:"aln_layout"`
+	CLI    bool    `json:"cli,omitempty"`
 }
 
 // udListRow is the model's (and the parsed) view of one updown-list row.
@@ -230,6 +231,13 @@ func checkC10(c c10Case, o *Obs) error {
 	if out.String() != want.String() {
 		return fmt.Errorf("updown list output differs from model\n got: %q\nwant: %q\n%s", trunc(out.String(), 600), trunc(want.String(), 600), firstDiff(out.String(), want.String()))
 	}
+	if c.CLI && gofastaBin() != "" {
+		dir, cleanup := caseDir("c10cli")
+		defer cleanup()
+		if err := cliAgree(o, "updown list", want.String(), "updown", "list", "-r", writeFile(dir, "ref.fa", refTxt), "-q", writeFile(dir, "aln.fa", alnTxt)); err != nil {
+			return err
+		}
+	}
 	return nil
 }
 
@@ -306,6 +314,7 @@ func genC10(t *rapid.T) c10Case {
 	}
 	c.RefLay = genLayout(t, w)
 	c.AlnLay = genLayout(t, w)
+	c.CLI = rapid.IntRange(0, 29).Draw(t, "cli") == 0
 	return c
 }
 
